@@ -1600,6 +1600,20 @@ impl<'e> Runner<'e> {
     }
 }
 
+/// A version-4-looking UUID derived from a seed (the format session ids have on the wire).
+fn uuid_like(seed: u64) -> String {
+    let mut x = seed;
+    let mut next = || {
+        x = x.wrapping_add(0x9E37_79B9_7F4A_7C15);
+        let mut z = x;
+        z = (z ^ (z >> 30)).wrapping_mul(0xBF58_476D_1CE4_E5B9);
+        z = (z ^ (z >> 27)).wrapping_mul(0x94D0_49BB_1331_11EB);
+        z ^ (z >> 31)
+    };
+    let (a, b) = (next(), next());
+    format!("{:08x}-{:04x}-4{:03x}-8{:03x}-{:012x}", (a >> 32) as u32, (a >> 16) as u16, a & 0xfff, (b >> 48) & 0xfff, b & 0xffff_ffff_ffff)
+}
+
 pub async fn run_history(env: &Env, h: &History, mode: Mode) -> Outcome {
     let mut r = Runner {
         env,
@@ -1636,6 +1650,25 @@ pub async fn run_history(env: &Env, h: &History, mode: Mode) -> Outcome {
             format!("crypto={}", env.case.crypto.label()),
         ] {
             r.stats.cbump("c12_config_values", &kv);
+        }
+    }
+    // (C12 only: the state-carry-over model of C11 speaks about sessions that the histories themselves created)
+    if let (Mode::C12, Some(kv)) = (mode, &h.forged) {
+        // the client's first cookie was not issued in this history: the harness writes the wire value the way the session
+        // layer does ({"0": id, "1": client state}) and lets the *real* processor of this configuration protect it - a plain
+        // cookie anyone can make when no rule covers the name, a signed one from a deployment that only signed, ...
+        let id = uuid_like(0x5eed_f06e_d000_u64 ^ ((env.case.label().len() as u64) << 20) ^ (h.reqs.len() as u64 + 1));
+        let client: Kv = kv.iter().cloned().collect();
+        let value = json!({"0": id, "1": client}).to_string();
+        let mut rc = ResponseCookies::new();
+        rc.insert(pavex::cookie::ResponseCookie::new(env.case.cookie.name.clone(), value));
+        if let Ok(resp) = inject_response_cookies(Response::ok(), rc, &env.processor) {
+            if let Some(sc) = resp.headers().get(SET_COOKIE).and_then(|v| v.to_str().ok()).and_then(SetCookie::parse) {
+                r.emitted.push(Emitted { name_wire: sc.name_wire.clone(), value_wire: sc.value_wire.clone(), domain: None, path: None,
+                                         id, client, by: usize::MAX });
+                r.jar = Some(0);
+                r.stats.bump("histories_starting_with_a_cookie_not_issued_by_them");
+            }
         }
     }
     let mut violation = None;
